@@ -109,3 +109,25 @@ def check_yields_all(ctx: Ctx, rule: str, f: FunctionInfo) -> None:
                                   f"sees (compares, records) an individual that already had a fitness",
                witness=bad)
         break
+
+
+def weight_writers(prog) -> set:
+    """functions that may store production weights: the weight decorator, Grammar.update_weights, and private helpers (methods or
+    module-level functions of the grammar package whose name starts with '_') all of whose callers are such functions"""
+    import ast as _ast
+    from ..astutil import call_name as _cn
+    from ..frontend import walk_local as _wl
+    allowed = {f.fullname for f in prog.functions.values() if f.fullname == "geneticengine.grammar.grammar:Grammar.update_weights"
+               or f.fullname.startswith("geneticengine.grammar.decorators:weight")}
+    changed = True
+    while changed:
+        changed = False
+        for g in prog.functions.values():
+            if g.fullname in allowed or not g.name.startswith("_") or g.name.startswith("__") or not g.module.name.startswith("geneticengine.grammar"):
+                continue
+            callers = [f for f in prog.functions.values() if f is not g and f.module.name.startswith("geneticengine")
+                       for c in _wl(f.node, include_nested=True) if isinstance(c, _ast.Call) and _cn(c) == g.name]
+            if callers and all(f.fullname in allowed for f in callers):
+                allowed.add(g.fullname)
+                changed = True
+    return allowed
